@@ -1,6 +1,6 @@
 PROP = {
-    "shared_groups": "also runs the neighbouring groups whose code can break this property: e2e-pause (described under C18); e2e-stop (described under C10)",
-    "groups": ["proc", "errtell", "e2e-hang", "e2e-pause", "e2e-stop"],
+    "shared_groups": "also runs the neighbouring groups whose code can break this property: e2e-pause (described under C18); e2e-stop (described under C10); archive (described under C15: its section 13 runs the real archive writer and the real recvFileDataV2 on destinations that fail - a swallowed write error makes the save stage spin and both sides wait for ever)",
+    "groups": ["proc", "errtell", "e2e-hang", "e2e-pause", "e2e-stop", "archive"],
     "rule": "proc: for each of the three generated nets (send, recv, hash) the numbers of goroutines, channels, "
             "defer-closed channels, range loops and the sorted channel capacities counted by an independent name-based "
             "go/ast walk vs the numbers the extracted model computes from the generated skeleton; proc_faults: 'every return "
